@@ -100,6 +100,7 @@ class Fn:
         if key in self._succ:
             return self._succ[key]
         succ = []
+        constloc = self._const_locals() if prune_const else {}
         for b in self.blocks:
             t = b["t"]
             k = t[0]
@@ -107,6 +108,8 @@ class Fn:
                 s = [t[1]]
             elif k == "switch":
                 op = t[1]
+                if prune_const and op[0] in ("c", "m") and not op[1][1] and op[1][0] in constloc:
+                    op = ["k", {"v": constloc[op[1][0]]}]
                 if prune_const and op[0] == "k" and "v" in op[1]:
                     v = op[1]["v"]
                     tgt = t[3]
@@ -134,6 +137,32 @@ class Fn:
             succ.append(seen)
         self._succ[key] = succ
         return succ
+
+    def _const_locals(self):
+        """Locals assigned exactly once in the body, by a scalar constant (e.g. the
+        `cfg!(debug_assertions)` flag a `debug_assert!` switches on)."""
+        if getattr(self, "_cl", None) is not None:
+            return self._cl
+        ndef = {}
+        val = {}
+        for b in self.blocks:
+            for s in b["s"]:
+                if s[0] == "a":
+                    l = s[1][0]
+                    ndef[l] = ndef.get(l, 0) + 1
+                    if s[2][0] in ("ref", "ptr") and s[2][1] != "shared" and s[2][1] != "fake":
+                        ndef[s[2][2][0]] = ndef.get(s[2][2][0], 0) + 2  # mutably borrowed: not a constant
+                    if not s[1][1] and s[2][0] == "use" and s[2][1][0] == "k" and "v" in s[2][1][1]:
+                        val[l] = s[2][1][1]["v"]
+                    else:
+                        val.pop(l, None)
+                        ndef[l] = ndef.get(l, 0) + 1
+            t = b["t"]
+            if t[0] == "call":
+                l = t[3][0]
+                ndef[l] = ndef.get(l, 0) + 2
+        self._cl = {l: v for l, v in val.items() if ndef.get(l) == 1 and l > self.nargs}
+        return self._cl
 
     def reachable_blocks(self, prune_const=True, start=0, succ=None):
         succ = succ or self.successors(prune_const)
